@@ -233,7 +233,10 @@ pub fn run(ctx: &Ctx) -> Report {
             st.nontrivial(fnv(format!("{:x}|{:x}", a, b).as_bytes()));
         }
         st.sample(|| format!("a={:#018x} b={:#018x}", a, b));
-        check_pair(a, b, 4096)
+        // the unary checks (iteration, adaptors, collecting, flips) run on the first operand, so
+        // each pair is judged both ways round
+        check_pair(a, b, 4096)?;
+        check_pair(b, a, 4096)
     }));
     let mut conv = PartResult::empty();
     conv.stats.eval(64 + 8 * 3 + 6);
